@@ -23,9 +23,15 @@ Verdict(e) ==
           \o " instead of " \o ExpectedClass(e.cfg, sess, j)
      ELSE IF impure # {} THEN "the same rendering evaluated twice gives different text"
      ELSE IF ~anyDetach /\ ModelDiff(e.model, e.s_end) # "" THEN "rendering changed the model: " \o ModelDiff(e.model, e.s_end)
-     ELSE IF \E i \in DOMAIN e.counts : e.counts[i][2] # 1 THEN
-          LET i == CHOOSE i \in DOMAIN e.counts : e.counts[i][2] # 1 IN
+     \* counts[i] = <<element, occurrences of its text in the database text, number of top-level elements rendering that text>>:
+     \* every element appears exactly once, so a text appears once per element that renders to it
+     ELSE IF \E i \in DOMAIN e.counts : e.counts[i][2] # e.counts[i][3] THEN
+          LET i == CHOOSE i \in DOMAIN e.counts : e.counts[i][2] # e.counts[i][3] IN
           "text of " \o e.counts[i][1] \o " occurs " \o ToString(e.counts[i][2]) \o " times in the database text"
+     \* "leaves ... later renderings unchanged": after the SAME edits, the database whose renderings were evaluated in this
+     \* session renders like a database of the same content that was never rendered (later = name of the first rendering
+     \* that differs, "" if none or not applicable)
+     ELSE IF e.later # "" THEN "an earlier rendering changed what a later one shows (after the same edits, rendered-before differs from never-rendered): " \o e.later
      ELSE ""
 
 VARIABLE ti
